@@ -7,7 +7,8 @@
 
    Modelled domain of strings (anything else: [OutOfDomain], never generated for the comparison):
    printable ASCII, blanks as the only white space; a word is a maximal run of letters/digits/underscore
-   starting with a letter and is delimited (a digit run directly followed by a letter is outside);
+   starting with a letter and is delimited (a word glued to a digit run is the bare-word string literal; glued
+   Python keywords and operator words are outside);
    words having an operator word (and, or, lt, ...) as a proper prefix are outside (pyparsing matches
    operator spellings as Literal, i.e. as prefixes); quoted strings contain no quote and no backslash and are
    not directly followed by the same quote character. *)
@@ -102,9 +103,22 @@ Fixpoint lex_go (cfg : config) (fuel : nat) (cs : list ascii) : option (list tok
         end
       else if is_nums c then
         let '(run, rest) := span is_nums cs in
+        if String.eqb (string_of_list_ascii run) "..." then None   (* ast.parse reads it as Ellipsis: outside the model *)
+        else
         match rest with
-        | d :: _ => if is_alpha d then None                   (* Keyword's preceding-character test *)
-                    else cons_t (TNum (string_of_list_ascii run)) rest
+        | d :: _ =>
+            if is_alpha d then
+              (* a word glued to a digit run ("1e3", "0x10", "3abc"): Keyword's preceding-character test fails, so
+                 the word is never a keyword or operator, only the bare-word literal = the string of that name *)
+              let '(run2, rest2) := span is_wordc rest in
+              let w := string_of_list_ascii run2 in
+              if existsb (Ascii.eqb "_"%char) run2 then Some [TBad]       (* the underscore is consumed by nothing *)
+              else if mem_str w (py_kwlist cfg) || mem_str w (word_ops cfg) || has_op_prefix cfg run2 then None
+              else match lex_go cfg f rest2 with
+                   | Some ts => Some (TNum (string_of_list_ascii run) :: TStr w :: ts)
+                   | None => None
+                   end
+            else cons_t (TNum (string_of_list_ascii run)) rest
         | [] => cons_t (TNum (string_of_list_ascii run)) rest
         end
       else if is_alpha c then
